@@ -485,11 +485,44 @@ def check_rejects(ctx, case):
         ctx.fail('concat_rejects', case, probs, 'ValueError', {}, str(probs))
 
 
+def check_suffix_collision(ctx, case):
+    """identifier clashes are removed by appending the position of the pulse; the new name must not
+    collide with an identifier that is already in use (witness of the open finding F26)"""
+    X, Y, Z = util.paulis[1:]
+    k = int(case.get('k', 1))
+    om = np.linspace(0.1, 5, 6)
+    P0 = ff.PulseSequence([[X, [0.7]]], [[Z, [1.0], 'a'], [X, [1.0], f'a_{k}']], [0.5])
+    P1 = ff.PulseSequence([[Y, [0.4]]], [[Y, [1.0], 'a']], [0.8])
+    ps = [P0, P1] if k == 1 else [P1, P0]
+    probs = []
+    try:
+        C = ff.concatenate(ps)
+        ids = list(C.n_oper_identifiers)
+        if len(set(ids)) != len(ids):
+            probs.append(f'duplicate noise identifiers after disambiguation: {ids}')
+        ref = ff.PulseSequence(
+            [[o, c] for o, c in zip(C.c_opers, C.c_coeffs)],
+            [[Z, [1.0, 0] if k == 1 else [0, 1.0], 'z'], [X, [1.0, 0] if k == 1 else [0, 1.0], 'x'],
+             [Y, [0, 1.0] if k == 1 else [1.0, 0], 'y']], C.dt)
+        e = gens.rel_err(C.get_filter_function(om).sum((0, 1)), ref.get_filter_function(om).sum((0, 1)))
+        if not e <= 1e-8:
+            probs.append(f'filter function differs from the sequenced pulse by {e:.3g}')
+    except Exception as e:   # noqa
+        probs.append(f'{type(e).__name__}: {e}')
+    ctx.count(('suffix_collision', k))
+    if probs:
+        ctx.fail('concat_vs_scratch', case, probs, 'the from-scratch result', {'suffix_collision': True},
+                 f'identifier a (two operators) next to an existing a_{k}: {probs[:2]}')
+
+
 CHECKS = {'concat_succeeds': check_concat, 'concat_vs_scratch': check_concat,
-          'concat_regroup': check_regroup, 'concat_rejects': check_rejects}
+          'concat_regroup': check_regroup, 'concat_rejects': check_rejects,
+          'suffix_collision': check_suffix_collision}
 
 
 def replay(ctx, check, case):
+    if 'descs' not in case and 'k' in case:
+        return check_suffix_collision(ctx, case)
     CHECKS[check](ctx, case)
 
 
@@ -497,6 +530,8 @@ def search(ctx, deep=False):
     rng = ctx.rng('deep' if deep else 'search')
     n = {('quick', False): 40, ('quick', True): 300, ('thorough', False): 800,
          ('thorough', True): 2500}[(ctx.tier, deep)]
+    for k in (0, 1):
+        check_suffix_collision(ctx, {'k': k})
     for i in range(n):
         nP = int(rng.choice([1, 2, 2, 3, 3, 4]))
         d = int(rng.choice([2, 2, 3]))
